@@ -315,7 +315,13 @@ pub fn render(rng: &mut Rng, prog: &Program, o: &LayoutOpts) -> Rendered {
             if depth > 0 && class == LayoutClass::Plain {
                 class = LayoutClass::Deep;
             }
-            // own-line comments and blank lines are only placed between lines at depth 0
+            // blank lines are legal anywhere, also while a parenthesis is open
+            if depth > 0 && rng.chance(1, 5) {
+                trail.push_str(*rng.pick(&["", "  ", "\t"]));
+                trail.push_str(nl);
+                blanks += 1;
+            }
+            // own-line comments are only placed between lines at depth 0
             if depth == 0 {
                 if rng.chance(1, 8) {
                     trail.push_str(nl);
